@@ -231,7 +231,15 @@ func (t *Type) IsSimpleType() bool {
 
 func ParseType(vt reflect.Type, def string) (*Type, error) {
 	var i int
-	return doParseType(vt, def, &i, true)
+	ret, err := doParseType(vt, def, &i, true)
+	if err != nil {
+		return nil, err
+	}
+	/* nothing but spaces may follow a complete type descriptor */
+	if tok, _ := readToken(def, &i, true); tok != "" {
+		return nil, ESyntax(i-len(tok), def, "unexpected token after the type descriptor")
+	}
+	return ret, nil
 }
 
 func isident(c byte) bool {
